@@ -438,11 +438,11 @@ func (e *Enc) appendBuiltin(c *ssa.CallCommon, pos token.Pos) Term {
 	// constraints on resArr
 	q := e.fresh("qi")
 	// prefix
-	e.assume(fmt.Sprintf("(forall ((%s %s)) (=> (and (bvsle #x0000000000000000 %s) (bvslt %s (s-len %s))) (= (select %s (bvadd %s %s)) (select %s (bvadd (s-off %s) %s)))))",
+	e.assume(fmt.Sprintf("(forall ((%s %s)) (=> (and (bvsle #x0000000000000000 %s) (bvslt %s (s-len %s))) (= (select %s (eidx %s %s)) (select %s (eidx (s-off %s) %s)))))",
 		q, bv64, q, q, s.S, resArr, offN, q, oldInner, s.S, q))
 	if !isStr {
 		srcInner := sel(mt, tarr)
-		e.assume(fmt.Sprintf("(forall ((%s %s)) (=> (and (bvsle #x0000000000000000 %s) (bvslt %s %s)) (= (select %s (bvadd %s (bvadd (s-len %s) %s))) (select %s (bvadd %s %s)))))",
+		e.assume(fmt.Sprintf("(forall ((%s %s)) (=> (and (bvsle #x0000000000000000 %s) (bvslt %s %s)) (= (select %s (eidx %s (bvadd (s-len %s) %s))) (select %s (eidx %s %s)))))",
 			q, bv64, q, q, tlen, resArr, offN, s.S, q, srcInner, toff, q))
 	}
 	// in place: everything outside the appended window is unchanged
@@ -530,7 +530,7 @@ func (e *Enc) intrinsic(key string, callee *ssa.Function, c *ssa.CallCommon, pos
 		inner := sel(stateMem(e.cur, e.useMem, m), "(s-arr "+s.S+")")
 		var parts []string
 		for i := 0; i < n; i++ {
-			parts = append(parts, sel(inner, "(bvadd (s-off "+s.S+") "+bvLit(64, uint64(i))+")"))
+			parts = append(parts, sel(inner, eidx("(s-off "+s.S+")", bvLit(64, uint64(i)))))
 		}
 		return []Term{{e.define(e.fresh("be"), w.reg.sortOf(rt), "(concat "+strings.Join(parts, " ")+")"), w.reg.sortOf(rt), rt}}, true
 	}
@@ -599,7 +599,7 @@ func (e *Enc) errorf(c *ssa.CallCommon, pos token.Pos) Term {
 		m := w.reg.elemMem(types.NewInterfaceType(nil, nil))
 		inner := sel(stateMem(e.cur, e.useMem, m), "(s-arr "+va.S+")")
 		for _, k := range wIdx {
-			arg := sel(inner, "(bvadd (s-off "+va.S+") "+bvLit(64, uint64(k))+")")
+			arg := sel(inner, eidx("(s-off "+va.S+")", bvLit(64, uint64(k))))
 			class = "(bvor " + class + " (errclass (i-ref " + arg + ")))"
 		}
 	}
@@ -641,7 +641,14 @@ func (e *Enc) implCases(c *ssa.CallCommon) []implCase {
 	var out []implCase
 	for key, ct := range w.cs.Funcs {
 		fn := w.fnByKey[key]
-		if fn == nil || fn.Signature.Recv() == nil || fn.Name() != c.Method.Name() {
+		if fn == nil || fn.Signature.Recv() == nil {
+			continue
+		}
+		mname := fn.Name()
+		if o := fn.Origin(); o != nil {
+			mname = o.Name()
+		}
+		if mname != c.Method.Name() {
 			continue
 		}
 		rt := fn.Signature.Recv().Type()
